@@ -6,16 +6,25 @@
 let rec repeat x n = if n <= 0 then [] else x :: repeat x (n - 1)
 let fill n = repeat (n_of_int 0xEE) n
 
+(* canonical text of a model result: "<out hex> <ret hex>" *)
+let sb (r : n list res) = match r with Ok l -> Some (hex_of_bytes l ^ " 0") | _ -> None
+let sn (r : n res) = match r with Ok x -> Some ("- " ^ hex_of_n x) | _ -> None
+let snat (r : nat res) = match r with Ok x -> Some (Printf.sprintf "- %x" (int_of_nat x)) | _ -> None
+
 (* compare the ISA models with the scalar model *)
-let judge (scalar : n list res) (variants : (string * n list res) list) : string =
+let judge (scalar : string option) (variants : (string * string option) list) : string =
   match scalar with
-  | Ok want ->
+  | Some want ->
       let rec go = function
-        | [] -> Printf.sprintf "OK %s 0" (hex_of_bytes want)
-        | (name, Ok got) :: tl -> if got = want then go tl else Printf.sprintf "MDIFF variant=%s got=%s want=%s" name (hex_of_bytes got) (hex_of_bytes want)
-        | (name, _) :: _ -> "MFAULT variant=" ^ name in
+        | [] -> "OK " ^ want
+        | (name, Some got) :: tl -> if got = want then go tl else Printf.sprintf "MDIFF variant=%s got=%s want=%s" name got want
+        | (name, None) :: _ -> "MFAULT variant=" ^ name in
       go variants
-  | _ -> "MFAULT variant=scalar"
+  | None -> "MFAULT variant=scalar"
+
+let nat = nat_of_int
+let rec take n l = if n <= 0 then [] else match l with [] -> [] | x :: t -> x :: take (n - 1) t
+let rec drop n l = if n <= 0 then l else match l with [] -> [] | _ :: t -> drop (n - 1) t
 
 let intr_ids = [
   "_mm_shuffle_epi8", 0;
@@ -115,22 +124,99 @@ let handle toks =
                           (Simd_ext.dispatch_indices bl))
   | ["bssef"; _; _; count; data] ->
       let c = int_of_string count in let n = nat_of_int c and src = bytes_of_hex data and o = fill (4 * c) in
-      judge (Simd_ext.scalar_bss_encode (nat_of_int 4) n src o)
-        ["sse", Simd_ext.sse_bss_encode_float n src o; "avx2", Simd_ext.avx2_bss_encode_float n src o;
-         "avx512", Simd_ext.avx512_bss_encode_float n src o]
+      judge (sb (Simd_ext.scalar_bss_encode (nat_of_int 4) n src o))
+        ["sse", sb (Simd_ext.sse_bss_encode_float n src o); "avx2", sb (Simd_ext.avx2_bss_encode_float n src o);
+         "avx512", sb (Simd_ext.avx512_bss_encode_float n src o)]
   | ["bssdf"; _; _; count; data] ->
       let c = int_of_string count in let n = nat_of_int c and src = bytes_of_hex data and o = fill (4 * c) in
-      judge (Simd_ext.scalar_bss_decode (nat_of_int 4) n src o)
-        ["sse", Simd_ext.sse_bss_decode_float n src o; "avx2", Simd_ext.avx2_bss_decode_float n src o;
-         "avx512", Simd_ext.avx512_bss_decode_float n src o]
+      judge (sb (Simd_ext.scalar_bss_decode (nat_of_int 4) n src o))
+        ["sse", sb (Simd_ext.sse_bss_decode_float n src o); "avx2", sb (Simd_ext.avx2_bss_decode_float n src o);
+         "avx512", sb (Simd_ext.avx512_bss_decode_float n src o)]
   | ["bssed"; _; _; count; data] ->
       let c = int_of_string count in let n = nat_of_int c and src = bytes_of_hex data and o = fill (8 * c) in
-      judge (Simd_ext.scalar_bss_encode (nat_of_int 8) n src o)
-        ["sse", Simd_ext.sse_bss_encode_double n src o; "avx2", Simd_ext.avx2_bss_encode_double n src o]
+      judge (sb (Simd_ext.scalar_bss_encode (nat_of_int 8) n src o))
+        ["sse", sb (Simd_ext.sse_bss_encode_double n src o); "avx2", sb (Simd_ext.avx2_bss_encode_double n src o)]
   | ["bssdd"; _; _; count; data] ->
       let c = int_of_string count in let n = nat_of_int c and src = bytes_of_hex data and o = fill (8 * c) in
-      judge (Simd_ext.scalar_bss_decode (nat_of_int 8) n src o)
-        ["sse", Simd_ext.sse_bss_decode_double n src o; "avx2", Simd_ext.avx2_bss_decode_double n src o]
+      judge (sb (Simd_ext.scalar_bss_decode (nat_of_int 8) n src o))
+        ["sse", sb (Simd_ext.sse_bss_decode_double n src o); "avx2", sb (Simd_ext.avx2_bss_decode_double n src o)]
+  | [("psum32" | "psum64") as op; _; _; count; init; data] ->
+      let n = nat (int_of_string count) and buf = bytes_of_hex data and i0 = n_of_hex init in
+      if op = "psum32" then
+        judge (sb (Simd_ext.scalar_prefix_sum (nat 4) n buf i0))
+          ["sse", sb (Simd_ext.sse_prefix_sum_i32 n buf i0); "avx2", sb (Simd_ext.avx2_prefix_sum_i32 n buf i0);
+           "avx512", sb (Simd_ext.avx512_prefix_sum_i32 n buf i0)]
+      else
+        judge (sb (Simd_ext.scalar_prefix_sum (nat 8) n buf i0))
+          ["sse", sb (Simd_ext.sse_prefix_sum_i64 n buf i0); "avx2", sb (Simd_ext.avx2_prefix_sum_i64 n buf i0);
+           "avx512", sb (Simd_ext.avx512_prefix_sum_i64 n buf i0)]
+  | [("gather32" | "gatherf" | "gather64" | "gatherd") as op; _; _; count; _dl; dict; idx] ->
+      let c = int_of_string count in let n = nat c and d = bytes_of_hex dict and ix = bytes_of_hex idx in
+      if op = "gather32" || op = "gatherf" then
+        let o = fill (4 * c) in
+        judge (sb (Simd_ext.scalar_gather (nat 4) n d ix o))
+          ["sse", sb (Simd_ext.sse_gather_i32 n d ix o); "avx2", sb (Simd_ext.avx2_gather_i32 n d ix o);
+           "avx512", sb (Simd_ext.avx512_gather_i32 n d ix o)]
+      else
+        let o = fill (8 * c) in
+        judge (sb (Simd_ext.scalar_gather (nat 8) n d ix o))
+          ["sse", sb (Simd_ext.sse_gather_i64 n d ix o); "avx2", sb (Simd_ext.avx2_gather_i64 n d ix o);
+           "avx512", sb (Simd_ext.avx512_gather_i64 n d ix o)]
+  | ["unpackb"; _; _; count; data] ->
+      let c = int_of_string count in let n = nat c and inp = bytes_of_hex data and o = fill c in
+      judge (sb (Simd_ext.scalar_unpack_bools n inp o))
+        ["sse", sb (Simd_ext.sse_unpack_bools n inp o); "avx2", sb (Simd_ext.avx2_unpack_bools n inp o);
+         "avx512", sb (Simd_ext.avx512_unpack_bools n inp o)]
+  | ["packb"; _; _; count; data] ->
+      let c = int_of_string count in let n = nat c and inp = bytes_of_hex data and o = fill ((c + 7) / 8) in
+      judge (sb (Simd_ext.scalar_pack_bools n inp o))
+        ["sse", sb (Simd_ext.sse_pack_bools n inp o); "avx2", sb (Simd_ext.avx2_pack_bools n inp o);
+         "avx512", sb (Simd_ext.avx512_pack_bools n inp o)]
+  | ["runlen"; _; _; count; data] ->
+      let n = nat (int_of_string count) and v = bytes_of_hex data in
+      judge (snat (Simd_ext.scalar_find_run_length n v))
+        ["sse", snat (Simd_ext.sse_find_run_length n v); "avx2", snat (Simd_ext.avx2_find_run_length n v);
+         "avx512", snat (Simd_ext.avx512_find_run_length n v)]
+  | ["crc32c"; _; _; crc; data] ->
+      let c = n_of_hex crc and d = bytes_of_hex data in
+      judge (Some ("- " ^ hex_of_n (Simd_ext.scalar_crc32c Simd_ext.simd_crc32c_table c d))) ["sse", sn (Simd_ext.sse_crc32c c d)]
+  | ["mcopy"; _; _; len; off; hist] ->
+      let l = int_of_string len and h = bytes_of_hex hist in
+      let hl = List.length h in let buf = h @ fill l in
+      let fin r = match r with Ok b -> Ok (take l (drop hl b)) | Err c -> Err c | Fault f -> Fault f in
+      judge (sb (fin (Simd_ext.scalar_match_copy buf (nat hl) (nat l) (nat (int_of_string off)))))
+        ["sse", sb (fin (Simd_ext.sse_match_copy buf (nat hl) (nat l) (nat (int_of_string off))))]
+  | ["mlen"; _; _; p; m] ->
+      let p = bytes_of_hex p and m = bytes_of_hex m in let n = nat (List.length p) in
+      judge (snat (Simd_ext.scalar_match_length n p m)) ["sse", snat (Simd_ext.sse_match_length n p m)]
+  | ["nonnull"; _; _; count; mx; data] ->
+      let n = nat (int_of_string count) and lv = bytes_of_hex data and mx = n_of_hex mx in
+      judge (sn (Simd_ext.scalar_count_non_nulls n lv mx)) ["sse", sn (Simd_ext.sse_count_non_nulls n lv mx)]
+  | ["nullbm"; _; _; count; mx; data; prefill] ->
+      let c = int_of_string count in
+      let n = nat c and lv = bytes_of_hex data and mx = n_of_hex mx and o = repeat (n_of_hex prefill) ((c + 7) / 8) in
+      judge (sb (Simd_ext.scalar_build_null_bitmap n lv mx o)) ["sse", sb (Simd_ext.sse_build_null_bitmap n lv mx o)]
+  | ["filldef"; _; _; count; v] ->
+      let c = int_of_string count in let n = nat c and v = n_of_hex v and o = fill (2 * c) in
+      judge (sb (Simd_ext.scalar_fill_def_levels n v o)) ["sse", sb (Simd_ext.sse_fill_def_levels n v o)]
+  | ["bu"; _; _; name; data] ->
+      let inp = bytes_of_hex data in
+      let go w nv f = judge (Some (hex_of_bytes (Simd_ext.scalar_bitunpack (nat w) (nat nv) inp) ^ " 0")) [name, sb (f inp)] in
+      (match name with
+       | "sse_32_1" -> go 1 32 Simd_ext.sse_bitunpack32_1bit | "sse_8_4" -> go 4 8 Simd_ext.sse_bitunpack8_4bit
+       | "sse_8_8" -> go 8 8 Simd_ext.sse_bitunpack8_8bit | "avx2_64_1" -> go 1 64 Simd_ext.avx2_bitunpack64_1bit
+       | "avx2_16_4" -> go 4 16 Simd_ext.avx2_bitunpack16_4bit | "avx2_16_8" -> go 8 16 Simd_ext.avx2_bitunpack16_8bit
+       | "avx2_8_16" -> go 16 8 Simd_ext.avx2_bitunpack8_16bit | "avx512_32_8" -> go 8 32 Simd_ext.avx512_bitunpack32_8bit
+       | "avx512_16_16" -> go 16 16 Simd_ext.avx512_bitunpack16_16bit | "avx512_32_4" -> go 4 32 Simd_ext.avx512_bitunpack32_4bit
+       | _ -> "UNMODELLED")
+  | ["mset"; _; _; n; v] ->
+      let c = int_of_string n in let n = nat c and v = n_of_hex v and o = fill c in
+      judge (sb (Simd_ext.scalar_memset n v o))
+        ["sse", sb (Simd_ext.sse_memset_small n v o); "avx2", sb (Simd_ext.avx2_memset n v o); "avx512", sb (Simd_ext.avx512_memset n v o)]
+  | ["mcpy"; _; _; data] ->
+      let src = bytes_of_hex data in let c = List.length src in let n = nat c and o = fill c in
+      judge (sb (Simd_ext.scalar_memcpy n src o))
+        ["sse", sb (Simd_ext.sse_memcpy_small n src o); "avx2", sb (Simd_ext.avx2_memcpy n src o); "avx512", sb (Simd_ext.avx512_memcpy n src o)]
   | ["intr"; name; a; b; _] ->
       (match List.assoc_opt name intr_ids with
        | None -> "UNMODELLED"
